@@ -536,6 +536,15 @@ func checkPipe(r *pipeRun, e pipeExp, o pipeObs) (string, string) {
 			}
 			want[m]--
 		}
+		// ... and with a mirror that takes everything (queues of 1000 entries, a handful of datagrams) EVERY
+		// received datagram is re-emitted, decodable or not
+		if !r.mirrorDead {
+			for k, n := range want {
+				if n > 0 {
+					return name + ":mirror:not-mirrored", fmt.Sprintf("a received datagram was not re-emitted to the third party: %d octets from %s (%d of %d datagrams arrived)", len(k)-strings.Index(k, "|")-1, k[:strings.Index(k, "|")], len(o.mirrored), len(r.seq))
+				}
+			}
+		}
 	}
 	if !r.inband {
 		if o.decoded != e.decoded {
@@ -1080,15 +1089,24 @@ func runShutdown(it shutItem, al map[string]pdgram, cacheFile string, out *shutO
 		if it.proto == ppIPFIX || it.proto == ppV9 {
 			// the file left behind must load and hold T1
 			k := al["template"]
+			nfields := 0
 			if _, err := os.Stat(cacheFile); err != nil {
 				o.fileErr = "no cache file written: " + err.Error()
 			} else if it.proto == ppIPFIX {
-				_, o.hasT1 = ipfix.VerifRetrieve(ipfix.GetCache(cacheFile), 300, append(net.IP{}, k.ip...))
+				var tr ipfix.TemplateRecord
+				tr, o.hasT1 = ipfix.VerifRetrieve(ipfix.GetCache(cacheFile), 300, append(net.IP{}, k.ip...))
+				nfields = len(tr.FieldSpecifiers)
 			} else {
-				_, o.hasT1 = netflow9.VerifRetrieve(netflow9.GetCache(cacheFile), 300, append(net.IP{}, k.ip...))
+				var tr netflow9.TemplateRecord
+				tr, o.hasT1 = netflow9.VerifRetrieve(netflow9.GetCache(cacheFile), 300, append(net.IP{}, k.ip...))
+				nfields = len(tr.FieldSpecifiers)
 			}
 			if !o.hasT1 && o.fileErr == "" {
 				o.fileErr = fmt.Sprintf("cycle %d: cache file does not hold the template acknowledged before the signal", cycle)
+			}
+			// the exporter re-announced T1 with ONE field in this run (acknowledged): that is the definition the file must hold
+			if it.shrink && cycle == 1 && o.hasT1 && nfields != 1 && o.fileErr == "" {
+				o.fileErr = fmt.Sprintf("cycle 1: the template was re-announced (1 field) and acknowledged before the signal, the cache file still holds the superseded definition (%d fields)", nfields)
 			}
 			// templates received before the signal: the collector had a full second to decode them;
 			// unless runnable threads were held up for that long in total (timers fired early) they must be in the file
@@ -1284,6 +1302,7 @@ func c16Items(tier string) []pipeItem {
 		}
 		for _, w := range []int{1, 2} {
 			out = append(out, pipeItem{"mirroring on", pipeRun{proto: p, workers: w, seq: seqOf(al, "dataA-long", "dataB-short", "dataA-mid"), cache: cache, mirror: true}, b})
+			out = append(out, pipeItem{"mirroring on, undecodable datagrams among the good ones", pipeRun{proto: p, workers: w, seq: seqOf(al, "wrong-version", "dataB-short", "truncated", "dataA-mid"), cache: cache, mirror: true}, b})
 		}
 		// the mirror target refuses every packet (the mirror worker gives up) and every queue holds ONE entry:
 		// after a few datagrams the mirror queues are full for good - decoding must go on regardless
